@@ -3,7 +3,8 @@ package main
 // C06, second component: the real ReuseConnTransport under REAL concurrency — no gates.
 // Several caller goroutines run exchanges with random (often very short) deadlines against
 // fake connections whose server goroutine answers every query in order after a random delay,
-// sometimes in segments, sometimes with an undecodable frame, sometimes by closing the
+// sometimes in segments, sometimes with an undecodable frame, sometimes twice, sometimes with a
+// stale or an unsolicited frame in front of or behind the reply, sometimes by closing the
 // connection; the idle timeout is a few milliseconds so that idle timers race with reuse;
 // Close may hit at any moment. Nothing is deterministic here, so there is no model run to
 // compare with: the observed history (linearised under the fake connections' mutex) is
@@ -55,7 +56,34 @@ func (h *c06case) serve(c *c06conn, r *rand.Rand) {
 			h.mu.Unlock()
 			continue
 		}
-		switch k := r.Intn(40); {
+		switch k := r.Intn(46); {
+		case k >= 40 && k < 43: // the reply twice (or once more a little later)
+			fr := c.nextFrame(true)
+			h.send(c, fr)
+			if k == 42 {
+				h.mu.Unlock()
+				time.Sleep(c06us(r.Intn(400)))
+				h.mu.Lock()
+			}
+			if !c.closed && !c.peerClosed {
+				h.send(c, c.dupFrame(len(c.sent)-1))
+			}
+			h.mu.Unlock()
+		case k == 43: // an older frame again, then the reply
+			if len(c.sent) > 0 {
+				h.send(c, c.dupFrame(r.Intn(len(c.sent))))
+			}
+			h.send(c, c.nextFrame(true))
+			h.mu.Unlock()
+		case k >= 44: // a reply nobody asked for (invented id), before or after the real one
+			if k == 44 {
+				h.send(c, c.strayFrame(9998, 0xEE00+r.Intn(256)))
+				h.send(c, c.nextFrame(true))
+			} else {
+				h.send(c, c.nextFrame(true))
+				h.send(c, c.strayFrame(9998, 0xEE00+r.Intn(256)))
+			}
+			h.mu.Unlock()
 		case k < 30:
 			h.send(c, c.nextFrame(true))
 			h.mu.Unlock()
@@ -112,7 +140,7 @@ func c06stressRun(cs string) string {
 			}
 			time.Sleep(c06us(rr.Intn(100)))
 			h.mu.Lock()
-			c := &c06conn{h: h, id: len(h.conns), badFrames: map[*c06frame]bool{}}
+			c := &c06conn{h: h, id: len(h.conns)}
 			h.conns = append(h.conns, c)
 			h.event(c06D, c.id, 0, fmt.Sprintf("D%d", c.id))
 			h.mu.Unlock()
